@@ -72,6 +72,7 @@ EXPECT = {
     'POS1': [('FixtureLint::Trim', 'end')],
     'DZ1': [('FixtureSphere::Jn', '/_e2')],
     'DEAD1': [('FixtureLint::Hemi', 'arm@')],
+    'DS1': [('FixtureLint::Accum', 'wt@')],
     'CP1': [('FixtureLint::Pad', 'easting/northing')],
     'X7r': [('FixtureShared::HalfFilled', 'alpha_')],
     'K7': [('FixtureRaster::probe', 'B1 filepos column')],
@@ -183,6 +184,9 @@ def run_controls(rules):
         elif r == 'DEAD1':
             from .rules import lint
             res = lint.rule_DEAD1(fx, None)[0]
+        elif r == 'DS1':
+            from .rules import lint
+            res = lint.rule_DS1(fx, None)[0]
         elif r == 'CP1':
             from .rules import lint
             res = lint.rule_CP1(fx, None)[0]
